@@ -25,11 +25,22 @@ CALL_CAT = {
     "type_entry::make_doc": "attrs", "type_entry::strings_to_derives": "path", "enums::output_variant": "variant",
     "TypeSpace::to_stream": "items", "structs::generate_serde_attr": ("attrs?", None), "TypeEntry::default_fn": (None, "fnitem?"),
 }
-# holes whose producer is an accumulation the resolver does not follow: (fn suffix, hole name) -> category, with the reason
-HOLE_CAT = {
-    ("OutputSpace::into_stream", "items"): "items",      # token streams accumulated per module by add_item (items by C01.T1 of their own templates)
-    ("TypeEntry::type_parameter_ident", "lifetime"): "lifetime",  # `'` + format_ident!(name), or absent
-}
+# holes whose producer the resolver does not follow, recognised by how they are produced (not by name)
+def special_hole(t1, h, tnode, tanc, name):
+    from lib import scope_binding, Canon
+    b = scope_binding(h, tanc, name, tnode)
+    if b is None:
+        return None
+    # token streams accumulated per module by add_item: closure parameter of the map over the grouped items
+    if h["fn"].endswith("OutputSpace::into_stream") and b[0] == "closure":
+        return "items"
+    if b[0] == "let" and b[1].get("init") is not None:
+        s = Canon(t1.c, h, 2).r(b[1]["init"])
+        if "Punct::new(" in s and "format_ident!" in s:
+            return "lifetime"
+    return None
+
+
 PLACEHOLDER = {
     "type": ["__T"], "expr": ["__e()"], "attrs": ['#[doc = "d"]'], "attrs?": ["", "#[serde(default)]"], "path": ["__p::P"],
     "variant": ["__V,"], "items": ["struct __I;"], "fnitem": ["fn __f() {}"], "fnitem?": ["", "fn __f() {}"], "fieldinit": ["__f: __e()"],
@@ -42,6 +53,7 @@ FN_SINK = {
     "value::value_for_adjacent_enum": "expr", "value::value_for_untagged_enum": "expr", "value::tuple_variant_value": "expr",
     "value::value_for_struct_props": "fieldinits", "enums::output_variant": "variants", "type_entry::make_doc": "attrs",
     "output::OutputSpace::into_stream": "file", "as std::convert::From<&DefaultImpl>>::from": "items",
+    "structs::generate_serde_attr": "attrs", "TypeEntry::default_fn": "items",
 }
 
 
@@ -279,19 +291,7 @@ class T1:
             return rs
         if kind == "param":
             fh, idx = b[1], b[2]
-            ty = self.c.fns.get(fh["fn"], {}).get("inputs", [])
-            if name == "scope":
-                return [("cat", "scope")]
-            out = []
-            for ch in self.c.user_fns():
-                for n, a in walk(ch["body"]):
-                    if n.get("k") in ("call", "mcall") and n.get("fn") == fh["fn"] and ch["fn"] != fh["fn"]:
-                        args = list(n.get("args", []))
-                        if n.get("k") == "mcall":
-                            args = [n["recv"]] + args
-                        if idx < len(args) and depth < 6:
-                            out += self.expand(ch, self.results(ch, args[idx]), n, list(a) + [n], depth + 1)
-            return out or [("unknown", "fn parameter %s" % name)]
+            return self.param_sources(fh["fn"], idx) or [("unknown", "fn parameter %s" % name)]
         if kind == "closure":
             clo, par = b[1], b[2]
             if par.get("k") == "mcall":
@@ -310,6 +310,41 @@ class T1:
                     out = [x for x in out if not (x[0] == "ctor" and not x[1].endswith("::" + m.group(1)))]
             return out
         return [("unknown", kind)]
+
+    def param_sources(self, fn, idx, visiting=None):
+        """Alternatives passed for parameter `idx` of `fn` over all call sites (parameters passed along are followed)."""
+        key = (fn, idx)
+        memo = self.__dict__.setdefault("_psrc", {})
+        if key in memo:
+            return memo[key]
+        visiting = visiting or set()
+        if key in visiting:
+            return []
+        visiting = visiting | {key}
+        out = []
+        from lib import scope_binding
+        for ch in self.c.user_fns():
+            for n, a in walk(ch["body"]):
+                if n.get("k") in ("call", "mcall") and n.get("fn") == fn:
+                    args = list(n.get("args", []))
+                    if n.get("k") == "mcall":
+                        args = [n["recv"]] + args
+                    if idx >= len(args):
+                        continue
+                    e = strip_refs(args[idx])
+                    if isinstance(e, dict) and e.get("k") == "path" and e.get("res") == "local":
+                        bb = scope_binding(ch, a, e["path"], n)
+                        if bb and bb[0] == "param":
+                            out += self.param_sources(ch["fn"], bb[1], visiting)
+                            continue
+                    out += self.expand(ch, self.results(ch, args[idx]), n, list(a) + [n], 2)
+        uniq = []
+        for x in out:
+            if x not in uniq:
+                uniq.append(x)
+        if len(visiting) == 1:
+            memo[key] = uniq
+        return uniq
 
     def expand(self, h, rs, at_node, at_anc, depth, keep_ctor=True):
         out = []
@@ -358,8 +393,8 @@ class T1:
                 if hk != "tokens":
                     res = list(PLACEHOLDER[hk])
                 else:
-                    tab = [cat for (suf, nm), cat in HOLE_CAT.items() if h["fn"].endswith(suf) and nm == t["name"]]
-                    rs = [("cat", tab[0])] if tab else self.resolve_hole(h, tnode, tanc, t["name"])
+                    sp_cat = special_hole(self, h, tnode, tanc, t["name"])
+                    rs = [("cat", sp_cat)] if sp_cat else self.resolve_hole(h, tnode, tanc, t["name"])
                     rs = self.expand(h, rs, tnode, tanc, 0, keep_ctor=False)
                     res = []
                     for r in rs:
@@ -463,20 +498,23 @@ def sink_of(t1, h, n, anc):
     par = anc[-1] if anc else {}
     if par.get("k") == "mcall" and par["name"] == "add_item":
         return "items"
-    if par.get("k") == "mcall" and par["name"] == "push" and src(par["recv"]) == "serde_options":
-        return "meta"
+    if par.get("k") == "mcall" and par["name"] == "push":
+        rv = strip_refs(par["recv"])
+        if isinstance(rv, dict) and rv.get("k") == "path" and rv.get("res") == "local":
+            vname = rv["path"]
+            for x, _ in walk(h["body"]):
+                if x.get("k") == "macro" and x["name"] == "quote" and any(a_.get("hole") and a_.get("path") == vname for a_ in x.get("args", [])):
+                    tx = (t1.facts.template_at(x["sp"]) or {}).get("text", "")
+                    if re.match(r"^# \[serde \(", tx):
+                        return "meta"
     # let item = quote!{..}; output.add_item(.., item)
     gs = guards(anc, n)
     lets = [g[1] for g in gs if g[0] == "let"]
     if lets:
         nm = lets[-1]
         for x, _ in nodes(h["body"], "mcall"):
-            if x["name"] == "add_item" and any(src(a) == nm for a in x.get("args", [])):
+            if x["name"] == "add_item" and any(src(a_) == nm for a_ in x.get("args", [])):
                 return "items"
-        if nm == "serde" and h["fn"].endswith("generate_serde_attr"):
-            return "attrs"
-        if nm == "def" and h["fn"].endswith("default_fn"):
-            return "items"
     if par.get("k") == "call" and "PropDefault::" in par.get("fn", ""):
         return "expr"
     if par.get("k") == "ref" and len(anc) >= 2 and anc[-2].get("k") in ("call", "mcall") and any(anc[-2].get("fn", "").endswith(s) for s in ("TypeEntry::output_value",)):
